@@ -51,6 +51,7 @@ SCHEMA = {
     # R1: B (many, conditional) ---- A (one, conditional), formalised by B.A_ID -> A.ID.  Bodies navigate it; links are
     # made and broken by the harness between invocations (`assoc` False: no relate statements inside the bodies)
     'edges': [('A', 'B', 'R1', '', True), ('B', 'A', 'R1', '', False)], 'assoc': False,
+    'rels': [('R1', 'B', 'A')],
 }
 ASSOC = ('R1', 'B', 'A_ID', 'A', 'ID')
 ENUMERATORS = ['red', 'green', 'blue', 'cyan', 'black']
